@@ -156,6 +156,68 @@ Definition fin_ (rec : expr -> res (bool * expr)) (e : expr) (args_changed chang
   if negb changed && negb args_changed then Ok (false, e)
   else r <- rec new ;; Ok (true, snd r).
 
+(* what the rule part of _optimize decides for a node whose children are already optimised *)
+Inductive action :=
+| AGeneric                              (* no rule: finalize(value, argz) *)
+| ARe (changed : bool) (new : expr)     (* finalize(new) with this `changed` flag *)
+| ASingle (x : expr)                    (* (seq x): return True, _optimize(x, parent)[1] *)
+| AFail (e : err).                      (* exception *)
+
+Definition top_rule (cancun : bool) (pc : pctx) (op : string) (argz : list expr) : action :=
+  match kind_of op with
+  | KSeq =>
+      match merges cancun argz with
+      | Err e => AFail e
+      | Ok (c, [x]) => ASingle x
+      | Ok (c, l) => ARe c (Node "seq" l)
+      end
+  | KBin o =>
+      match arith o with
+      | Some _ =>
+          match argz with
+          | [a; b] =>
+              match opt_binop o a b pc with
+              | Err e => AFail e
+              | Ok (Some e') => ARe true e'
+              | Ok None => AGeneric
+              end
+          | _ => AFail BadIndex
+          end
+      | None =>   (* shl shr sar *)
+          match argz with
+          | [a; b] => if is_lit0 a then ARe true b else AGeneric
+          | _ => AFail BadIndex
+          end
+      end
+  | KCeil32 =>
+      match argz with
+      | [Lit v] => let t := ceil32_py v in if lit_okb t then ARe true (Lit t) else AFail AssertFail
+      | _ => AGeneric
+      end
+  | KUn U_iszero =>
+      match argz with
+      | [Lit v] => ARe true (Lit (if v =? 0 then 1 else 0))
+      | _ => AGeneric
+      end
+  | KIf =>
+      match argz with
+      | [Lit v; t] =>
+          if evm_int true v =? 0 then ARe true (Node "seq" []) else ARe true (Node "seq" [t])
+      | [Lit v; t; fl] =>
+          if evm_int true v =? 0 then ARe true (Node "seq" [fl]) else ARe true (Node "seq" [t])
+      | [c; t; fl] =>
+          if head_is c ["iszero"; "ne"]%string then AGeneric
+          else ARe true (Node "if" [Node "iszero" [c]; fl; t])
+      | _ => AGeneric
+      end
+  | KAssert | KAssertUnreachable =>
+      match argz with
+      | [Lit v] => if evm_int true v =? 0 then AFail Raised else ARe true (Node "seq" [])
+      | _ => AGeneric
+      end
+  | _ => AGeneric
+  end.
+
 Fixpoint opt (fuel : nat) (cancun : bool) (pc : pctx) (e : expr) : res (bool * expr) :=
   match fuel with
   | O => Err OutOfFuel
@@ -166,58 +228,12 @@ Fixpoint opt (fuel : nat) (cancun : bool) (pc : pctx) (e : expr) : res (bool * e
       rs <- mapi_res (fun i a => opt f cancun (pc_of op i) a) 0 args ;;
       let args_changed := existsb fst rs in
       let argz := map snd rs in
-      (* finalize of _optimize *)
       let fin := fin_ (opt f cancun pc) e args_changed in
-      let generic := fin false (Node op argz) in
-      match kind_of op with
-      | KSeq =>
-          '(c, l) <- merges cancun argz ;;
-          match l with
-          | [x] => r <- opt f cancun pc x ;; Ok (true, snd r)
-          | _ => fin c (Node "seq" l)
-          end
-      | KBin o =>
-          match arith o with
-          | Some _ =>
-              match argz with
-              | [a; b] =>
-                  r <- opt_binop o a b pc ;;
-                  match r with Some e' => fin true e' | None => generic end
-              | _ => Err BadIndex
-              end
-          | None =>   (* shl shr sar *)
-              match argz with
-              | [a; b] => if is_lit0 a then fin true b else generic
-              | _ => Err BadIndex
-              end
-          end
-      | KCeil32 =>
-          match argz with
-          | [Lit v] => let t := ceil32_py v in if lit_okb t then fin true (Lit t) else Err AssertFail
-          | _ => generic
-          end
-      | KUn U_iszero =>
-          match argz with
-          | [Lit v] => fin true (Lit (if v =? 0 then 1 else 0))
-          | _ => generic
-          end
-      | KIf =>
-          match argz with
-          | [Lit v; t] =>
-              if evm_int true v =? 0 then fin true (Node "seq" []) else fin true (Node "seq" [t])
-          | [Lit v; t; fl] =>
-              if evm_int true v =? 0 then fin true (Node "seq" [fl]) else fin true (Node "seq" [t])
-          | [c; t; fl] =>
-              if head_is c ["iszero"; "ne"]%string then generic
-              else fin true (Node "if" [Node "iszero" [c]; fl; t])
-          | _ => generic
-          end
-      | KAssert | KAssertUnreachable =>
-          match argz with
-          | [Lit v] => if evm_int true v =? 0 then Err Raised else fin true (Node "seq" [])
-          | _ => generic
-          end
-      | _ => generic
+      match top_rule cancun pc op argz with
+      | AGeneric => fin false (Node op argz)
+      | ARe c new => fin c new
+      | ASingle x => r <- opt f cancun pc x ;; Ok (true, snd r)
+      | AFail er => Err er
       end
     end
   end.
